@@ -47,12 +47,12 @@ ENGINE_TB = TB_COMMON + [
 ENGINE_STREAMS = {
     # property: list of (profile, histories quick, histories thorough, ops)
     "C01": [("C01", 50, 1500, 40), ("static", 30, 1000, 40), ("wide", 30, 600, 30), ("widekids", 30, 600, 90)],
-    "C02": [("C01", 40, 1500, 40), ("midset", 30, 1000, 40), ("binds", 30, 1500, 40), ("raise", 40, 1000, 30)],
+    "C02": [("C01", 40, 1500, 40), ("midset", 30, 1000, 40), ("binds", 30, 1500, 40), ("raise", 40, 1000, 30), ("chain", 30, 1000, 30)],
     "C03": [("C01", 40, 1500, 40), ("faults", 30, 1000, 40), ("alwaysfaults", 40, 1000, 40), ("sentinel", 80, 2000, 40)],
     "C05": [("C01", 30, 1500, 40), ("faults", 30, 1500, 40), ("reject", 30, 1000, 40), ("wide", 20, 400, 30), ("sentinel", 60, 1500, 40)],
-    "C06": [("C01", 40, 1500, 40), ("churn", 40, 1000, 60), ("wide", 20, 400, 30), ("sentinel", 60, 1500, 40)],
-    "C07": [("faults", 50, 2000, 40), ("alwaysfaults", 50, 2000, 40), ("binds", 20, 1000, 40), ("reject", 30, 1000, 40)],
-    "C08": [("binds", 60, 3000, 40), ("inner", 30, 1000, 40), ("bind2", 60, 2000, 40)],
+    "C06": [("C01", 40, 1500, 40), ("churn", 40, 1000, 60), ("wide", 20, 400, 30), ("sentinel", 60, 1500, 40), ("inner", 30, 1000, 40)],
+    "C07": [("faults", 50, 2000, 40), ("alwaysfaults", 50, 2000, 40), ("binds", 20, 1000, 40), ("reject", 30, 1000, 40), ("pardropfaults", 30, 1000, 30)],
+    "C08": [("binds", 60, 3000, 40), ("inner", 30, 1000, 40), ("bind2", 60, 2000, 40), ("deadobs", 40, 1500, 40), ("chain", 40, 1500, 30)],
     "C10": [("C01", 30, 1500, 40), ("faults", 30, 1500, 40), ("inner", 40, 1500, 40)],
     "C11": [("cutoffs", 60, 3000, 40), ("midset", 50, 1500, 40)],
     "C12": [("midset", 40, 1500, 40), ("unobs", 30, 1500, 40), ("relink", 50, 1500, 34)],
@@ -75,9 +75,41 @@ ENGINE_INCLUDES = {
 }
 
 
+# the engine properties hold "under serial and parallel stabilization": the same oracles on histories generated
+# online on a graph driven by ParallelStabilize. Parallelism 1 is deterministic and is replayed on the model
+# (Engine.parStabilize); parallelism 4 runs in a child process (a deadlock or a dying worker is an outcome).
+ENGINE_PAR_STREAMS = {
+    "C01": ["binds", "pardrop"],
+    "C02": ["binds", "raise", "pardrop"],
+    "C03": ["binds", "pardrop"],
+    "C05": ["binds", "churn"],
+    "C06": ["binds", "churn"],
+    "C08": ["binds", "inner"],
+    "C10": ["pardrop", "inner"],
+    "C12": ["midset", "relink"],
+    "C13": ["binds", "midset"],
+}
+
+
+def run_engine_parallel(ctx, K):
+    b0 = K.go_build(ctx, "incrtrace")
+    if not b0:
+        return
+    inc = ENGINE_INCLUDES.get(ctx.pid, "")
+    for profile in ENGINE_PAR_STREAMS.get(ctx.pid, []):
+        rep, cases = run_par_stream(ctx, K, b0, profile, 1, tier_n(ctx, 40, 600), "par1_" + profile, False, claim=ctx.pid, include=inc, online=True)
+        if rep:
+            ctx.coq_cases += rep.get("coq_cases", 0)
+            K.run_cases(ctx, cases, "Engine.parStabilize~ParallelStabilize(parallelism 1), %s stream" % profile)
+        run_par_stream(ctx, K, b0, profile, 4, tier_n(ctx, 150, 3000), "par4_" + profile, False, claim=ctx.pid, include=inc, online=True)
+
+
 def run_engine(ctx, K):
     if ctx.pid == "C05":
         run_C05_edgeindex(ctx, K)
+    if ctx.pid == "C12":
+        run_parscen(ctx, K)  # vars created inside bind scopes (queued above height 0) written from node functions
+    run_engine_parallel(ctx, K)
     if ctx.pid == "C07":
         # faults under ParallelStabilize: at parallelism 1 the run is deterministic and replayed on the
         # model; at parallelism 4 (child process: a deadlock or a dying worker is an outcome) oracles only
@@ -88,11 +120,18 @@ def run_engine(ctx, K):
                 ctx.coq_cases += rep.get("coq_cases", 0)
                 K.run_cases(ctx, cases, "Engine.parStabilize~ParallelStabilize(parallelism 1), faults stream")
             run_par_stream(ctx, K, b0, "faults", 4, tier_n(ctx, 100, 2000), "parfaults_p4", False, claim="C07", include="C01,C03,C05")
+            # a failing bind next to stale nodes of its own height block
+            rep, cases = run_par_stream(ctx, K, b0, "pardropfaults", 1, tier_n(ctx, 40, 800), "pardropfaults_p1", False, claim="C07", include="C01,C03,C05")
+            if rep:
+                ctx.coq_cases += rep.get("coq_cases", 0)
+                K.run_cases(ctx, cases, "Engine.parStabilize~ParallelStabilize(parallelism 1), pardropfaults stream")
+            run_par_stream(ctx, K, b0, "pardropfaults", 4, tier_n(ctx, 300, 3000), "pardropfaults_p4", False, claim="C07", include="C01,C03,C05")
     b = K.go_build(ctx, "incrtrace")
     if not b:
         return
     for (profile, nq, nt, ops) in ENGINE_STREAMS[ctx.pid]:
-        n = tier_n(ctx, nq, nt)
+        # the implementation side is cheap: ten times more histories go through the Go oracles than are replayed on the model
+        n = tier_n(ctx, nq * 10, nt * 3)
         cases = os.path.join(ctx.rundir, "cases_%s_%s.v" % (ctx.pid, profile))
         extra = ["-include", ENGINE_INCLUDES[ctx.pid]] if ctx.pid in ENGINE_INCLUDES else []
         if ctx.pid == "C01" and profile in ("wide", "widekids"):
@@ -382,7 +421,7 @@ def run_parscen(ctx, K):
     if not b:
         return
     report = os.path.join(ctx.workdir, "parscen.json")
-    args = [b, "-seed", str(ctx.seed), "-rounds", str(tier_n(ctx, 40, 600)), "-json", report]
+    args = [b, "-seed", str(ctx.seed), "-rounds", str(tier_n(ctx, 40, 600)), "-json", report, "-claim", ctx.pid]
     rc, out = K.sh(args, 3000, cwd=ctx.workdir, env=dict(K.GOENV, GORACE="halt_on_error=0 exitcode=66"))
     open(os.path.join(ctx.workdir, "parscen.log"), "w").write(out)
     rep = None
@@ -398,13 +437,13 @@ def run_parscen(ctx, K):
                       dict(kind="crash", seed=ctx.seed, cmd=" ".join(args), tail=out[-2000:]))
 
 
-def run_par_stream(ctx, K, binary, profile, par, n, name, race, known_prefix="", claim="C04", include=ORACLES_ALL):
+def run_par_stream(ctx, K, binary, profile, par, n, name, race, known_prefix="", claim="C04", include=ORACLES_ALL, online=False):
     """run incrtrace with -par in a child process; returns the report or None; parses race reports"""
     import json as _json
     report = os.path.join(ctx.workdir, name + ".json")
     cases = os.path.join(ctx.rundir, "cases_%s_%s.v" % (ctx.pid, name.replace("-", "_")))
     args = [binary, "-prop", profile, "-par", str(par), "-claim", claim, "-include", include, "-n", str(n), "-seed", str(ctx.seed),
-            "-coq", cases, "-coqmax", str(tier_n(ctx, 40, 300)), "-json", report]
+            "-coq", cases, "-coqmax", str(tier_n(ctx, 40, 300)), "-json", report] + (["-online"] if online else [])
     env = dict(K.GOENV, GORACE="halt_on_error=0 exitcode=66")
     rc, out = K.sh(args, 3000, cwd=ctx.workdir, env=env)
     open(os.path.join(ctx.workdir, name + ".log"), "w").write(out)
@@ -441,6 +480,7 @@ def run_C04(ctx, K):
     # 3. graphs with binds, real overlap, race detector on, in a child process (a known finding lives here)
     for par in ((4,) if ctx.quick() else (4, 16)):
         run_par_stream(ctx, K, br, "binds", par, tier_n(ctx, 300, 2000), "race-binds-p%d" % par, True)
+    run_par_stream(ctx, K, br, "pardrop", 4, tier_n(ctx, 300, 2000), "race-pardrop-p4", True)
     # 4. failing and panicking node functions (generated online on the parallel graph), race detector on
     for profile in ("faults", "alwaysfaults"):
         run_par_stream(ctx, K, br, profile, 4, tier_n(ctx, 150, 1500), "race-%s-p4" % profile, True)
